@@ -352,6 +352,8 @@ impl Ctx {
                     cases: n,
                     failure_persistence: None,
                     max_shrink_iters: self.shrink_iters.load(Ordering::Relaxed),
+                    // wall-clock cap on shrinking one failure (ms): a slow-to-shrink failure is still reported, only less minimal
+                    max_shrink_time: 15_000,
                     max_global_rejects: 65536,
                     ..Config::default()
                 };
@@ -561,10 +563,21 @@ thread_local! {
     static QUIET: std::cell::Cell<bool> = const { std::cell::Cell::new(false) };
 }
 
+pub static WORKER_PANICS: AtomicU64 = AtomicU64::new(0);
+pub static LAST_WORKER_PANIC: Mutex<Option<String>> = Mutex::new(None);
+
 pub fn install_panic_hook() {
     let default = std::panic::take_hook();
     std::panic::set_hook(Box::new(move |info| {
         let msg = format!("{}", info);
+        // a panic on one of the pools' worker threads kills that worker: remember it for the pool driver
+        if std::thread::current().name().map(|n| n.contains("-worker-")).unwrap_or(false) {
+            WORKER_PANICS.fetch_add(1, Ordering::SeqCst);
+            if let Ok(mut g) = LAST_WORKER_PANIC.lock() {
+                *g = Some(msg.clone());
+            }
+            return;
+        }
         LAST_PANIC.with(|p| *p.borrow_mut() = Some(msg));
         if !QUIET.with(|q| q.get()) {
             default(info);
@@ -644,4 +657,86 @@ pub fn idx(raw: u16, len: usize) -> usize {
 /// Simple holder so that strategies' new_tree can be used for sampling without a full run
 pub fn sample_one<S: Strategy>(s: &S, runner: &mut TestRunner) -> S::Value {
     s.new_tree(runner).expect("strategy").current()
+}
+
+// ---------------------------------------------------------------------------------------------
+// libFuzzer campaigns (thorough tier): cargo-fuzz targets under /verif/harness/fuzz
+// ---------------------------------------------------------------------------------------------
+impl Ctx {
+    /// Run one coverage-guided campaign. A crash (the target's in-process oracle panicked) is a violation whose
+    /// replay file is libFuzzer's artifact; hitting the time cap before `runs` executions is recorded as an
+    /// inconclusive part, never as a violation; a build failure makes the whole check inconclusive (exit 2).
+    pub fn fuzz_campaign(&self, target: &str, corpus_name: &str, seeds: &[Vec<u8>], runs: u64, max_time_s: u64) {
+        let name = format!("libfuzzer:{target}:{corpus_name}");
+        if !self.want(&name) {
+            return;
+        }
+        let t0 = Instant::now();
+        let fuzz_dir = format!("{VERIF_ROOT}/harness/fuzz");
+        let corpus = format!("{fuzz_dir}/corpus-work/{target}-{corpus_name}-{}", self.seed);
+        let artifacts = format!("{fuzz_dir}/artifacts/{target}/");
+        let _ = std::fs::remove_dir_all(&corpus);
+        let _ = std::fs::create_dir_all(&corpus);
+        let _ = std::fs::create_dir_all(&artifacts);
+        for (i, s) in seeds.iter().enumerate() {
+            let _ = std::fs::write(format!("{corpus}/seed-{i:04}"), s);
+        }
+        let mut st = Stats::new();
+        let build = std::process::Command::new("cargo").args(["+nightly", "fuzz", "build", target]).current_dir(&fuzz_dir).env("CARGO_NET_OFFLINE", "true").output();
+        match build {
+            Ok(o) if o.status.success() => {}
+            other => {
+                eprintln!("[{}] cargo fuzz build {target} failed: {:?}", self.id, other.map(|o| String::from_utf8_lossy(&o.stderr).chars().rev().take(600).collect::<String>().chars().rev().collect::<String>()));
+                st.class("ABORT:cargo-fuzz-build-failed");
+                self.push(&name, "libFuzzer campaign (build failed)", false, st, t0);
+                return;
+            }
+        }
+        let seed = if self.seed == 0 { 1 } else { self.seed & 0x7fff_ffff };
+        let out = std::process::Command::new("cargo")
+            .args(["+nightly", "fuzz", "run", target, &corpus, "--"])
+            .arg(format!("-runs={runs}"))
+            .arg(format!("-seed={seed}"))
+            .arg(format!("-max_total_time={max_time_s}"))
+            .args(["-len_control=0", "-max_len=4096", "-print_final_stats=1", "-timeout=25"])
+            .arg(format!("-artifact_prefix={artifacts}"))
+            .current_dir(&fuzz_dir)
+            .env("CARGO_NET_OFFLINE", "true")
+            .output();
+        let out = match out {
+            Ok(o) => o,
+            Err(e) => {
+                eprintln!("[{}] cannot run cargo fuzz: {e}", self.id);
+                st.class("ABORT:cargo-fuzz-run-failed");
+                self.push(&name, "libFuzzer campaign (could not start)", false, st, t0);
+                return;
+            }
+        };
+        let err = String::from_utf8_lossy(&out.stderr).to_string();
+        let stat = |k: &str| -> u64 { err.lines().find(|l| l.contains(k)).and_then(|l| l.rsplit(':').next()).and_then(|v| v.trim().parse().ok()).unwrap_or(0) };
+        let executed = stat("stat::number_of_executed_units");
+        let new_units = stat("stat::new_units_added");
+        st.evals = executed;
+        // distinct non-trivial = inputs that reached new coverage (the corpus libFuzzer kept)
+        let kept = std::fs::read_dir(&corpus).map(|d| d.count()).unwrap_or(0);
+        for i in 0..kept {
+            st.nontrivial(&(target, corpus_name, i));
+        }
+        st.sample(|| json!({"target": target, "corpus": corpus_name, "seed_inputs": seeds.len(), "executed": executed, "new_units_added": new_units, "corpus_after": kept}));
+        if !out.status.success() {
+            // find the artifact libFuzzer wrote
+            let art = err.lines().find(|l| l.contains("Test unit written to")).and_then(|l| l.split("written to ").nth(1)).map(|s| s.trim().to_string());
+            let is_timeout_or_oom = err.contains("ERROR: libFuzzer: timeout") || err.contains("ERROR: libFuzzer: out-of-memory");
+            let msg = err.lines().filter(|l| l.contains("panicked at") || l.contains("violated") || l.contains("ERROR:")).take(4).collect::<Vec<_>>().join(" | ");
+            if is_timeout_or_oom {
+                st.class("INCONCLUSIVE:libfuzzer-timeout-or-oom");
+                eprintln!("[{}] libFuzzer {target}: timeout/oom unit {:?} (inconclusive)", self.id, art);
+            } else {
+                st.fail(Fail::new(format!("libfuzzer:{target}:crash"), format!("{msg} | artifact {:?}", art)), json!({"artifact": art, "target": target}));
+            }
+        } else if executed < runs {
+            st.class("time-cap-hit-before-all-runs(inconclusive part)");
+        }
+        self.push(&name, &format!("coverage-guided libFuzzer campaign on cargo-fuzz target `{target}` ({corpus_name} corpus, -runs={runs}, cap {max_time_s} s, oracle inside the target); non-trivial: inputs that reached new coverage"), false, st, t0);
+    }
 }
